@@ -41,6 +41,18 @@ CsvErrors(exists, rows, cfg) ==
   ELSE (IF cfg.id # 0 /\ \E i \in 1..Len(rows) : rows[i][cfg.id] = Blank THEN {"ValueError"} ELSE {})
        \cup (IF cfg.id # 0 /\ \E i, j \in 1..Len(rows) : i # j /\ rows[i][cfg.id] = rows[j][cfg.id] THEN {"DataError"} ELSE {})
 
+(* Block rows (files of tens of thousands of rows): reps[i] = n > 1 means that row i stands for n consecutive rows with the same cells  *)
+(* except for the voter id, the n - 1 extra ids being fresh, non-blank and distinct from every other id of the file (the harness writes *)
+(* them so).  Blank / duplicate ids can therefore only occur among the listed rows, and a pattern's weight counts every repetition.    *)
+CsvBagR(rows, cfg, reps) ==
+  LET rc == RankCols(cfg, Len(rows[1]))
+      pats == {Pattern(rows[i], rc) : i \in 1..Len(rows)}
+  IN [p \in pats |-> SumNat([i \in 1..Len(rows) |-> reps[i] * RowWeight(rows[i], cfg)], {i \in 1..Len(rows) : Pattern(rows[i], rc) = p})]
+LoadCSVR(exists, rows, cfg, reps) ==
+  LET errs == CsvErrors(exists, rows, cfg)
+  IN IF errs # {} THEN {[err |-> e, bag |-> <<>>] : e \in errs}
+     ELSE {[err |-> "", bag |-> CsvBagR(rows, cfg, reps)]}
+
 NoBag == <<>>
 (* the set of outcomes load_csv may produce: records of one shape, err = "" meaning a profile was returned *)
 LoadCSV(exists, rows, cfg) ==
